@@ -710,9 +710,10 @@ def g_loc(f):
             e = 0
         return float(b * 10**e), (b << 4) | e
 
-    sz, wsz = size()
-    hp, whp = size()
-    vp, wvp = size()
+    # the text form drops trailing fields that hold their defaults (1 m, 10000 m, 10 m): every subset of them at its default
+    sz, wsz = size() if rng.random() < 0.6 else (100.0, 0x12)
+    hp, whp = size() if rng.random() < 0.6 else (1000000.0, 0x16)
+    vp, wvp = size() if rng.random() < 0.6 else (1000.0, 0x13)
     return [lat, lon, float(alt), sz, hp, vp], [struct.pack("!BBBBIII", 0, wsz, whp, wvp, wlat, wlon, alt + 10000000)]
 
 
